@@ -537,13 +537,13 @@ func c15EvalAnnotation(t *fw.T, c *fw.Case) {
 	t.Sample("annotation/"+host, map[string]interface{}{"text": src, "catalog": fl})
 }
 
-
 // ---- what may follow a bare description: every directive kind, every response-code class, every line-end style ----
 
 type c15Follow struct {
-	text string            // follows the description (already indented for its place)
-	tail string            // declarations it needs, appended at the end
-	file map[string]string // files an INCLUDE needs
+	paren bool              // the host has an explicit '(' context and text starts with the ')' that closes it
+	text  string            // follows the description (already indented for its place)
+	tail  string            // declarations it needs, appended at the end
+	file  map[string]string // files an INCLUDE needs
 }
 
 var c15Codes = []string{"100", "101", "199", "200", "201", "204", "299", "300", "301", "399", "400", "404", "418", "499", "500", "501", "503", "599"}
@@ -573,6 +573,13 @@ func c15FollowersOf(host string) []c15Follow {
 			c15Follow{text: "  Method m2\n    Params\n    {}\n"})
 	case "tag":
 		out = append(out, c15Follow{text: "  TAG @sub\n"})
+	}
+	// the description is the last directive inside the host's own parentheses: what follows is the closing ')'
+	for _, cl := range []string{")\n", ") # end\n", ")# x\n", ") ### x ###\n", "  )  \n", ")\nTYPE @zafter any\n", ") // no\n"} {
+		if cl == ") // no\n" {
+			continue // (an annotation after ')' is not allowed by the language)
+		}
+		out = append(out, c15Follow{paren: true, text: cl})
 	}
 	return append(out, c15TopFollowers...)
 }
@@ -638,19 +645,22 @@ func c15EvalFollow(t *fw.T, c *fw.Case) {
 	t.Distinct("follow " + sig)
 }
 
-
 // c15FollowDoc builds the project: a description with the given body in the host, followed by f.
 func c15FollowDoc(host string, f c15Follow, body, nl string) run.Doc {
 	var head string
+	open := ""
+	if f.paren {
+		open = "(\n"
+	}
 	switch host {
 	case "info":
-		head = "JSIGHT 0.3\nINFO\n  Title \"t\"\n  Description\n"
+		head = "JSIGHT 0.3\nINFO\n" + open + "  Title \"t\"\n  Description\n"
 	case "http":
-		head = "JSIGHT 0.3\nGET /a/{id}\n  Description\n"
+		head = "JSIGHT 0.3\nGET /a/{id}\n" + open + "  Description\n"
 	case "rpc":
-		head = "JSIGHT 0.3\nURL /r\n  Protocol json-rpc-2.0\n  Method m\n    Description\n"
+		head = "JSIGHT 0.3\nURL /r\n  Protocol json-rpc-2.0\n  Method m\n" + open + "    Description\n"
 	default:
-		head = "JSIGHT 0.3\nTAG @t__a\nTAG @t_a\n  Description\n"
+		head = "JSIGHT 0.3\nTAG @t__a\nTAG @t_a\n" + open + "  Description\n"
 	}
 	doc := head + body + "\n" + f.text + f.tail
 	files := map[string][]byte{"root.jst": []byte(strings.ReplaceAll(doc, "\n", nl))}
@@ -661,7 +671,6 @@ func c15FollowDoc(host string, f c15Follow, body, nl string) run.Doc {
 	d.FixedSeed = true
 	return d
 }
-
 
 // c15EvalFiles: several included files made from one template - the descriptions stand at the same byte offsets of
 // different files and have different texts (one may be blank): every host must get its own text.
